@@ -1,8 +1,10 @@
 """C18 load balancers: proof (Props/C18.v) + correspondence of Model/Balance.v with the seven real
 balancers, each installed with Client.Use in front of a scripted, recording IO handler."""
+import glob
 import itertools
 import json
 import math
+import os
 import re
 from functools import reduce
 
@@ -69,6 +71,10 @@ def gen_cases(ctx):
             kw["seed"] = kw["id"]  # math/rand is re-seeded with seed_for(case, k) before call k
         cases.append(kw)
 
+    # 0. the corpus: failing inputs of defects that were repaired in /repo; they must keep passing
+    for path in sorted(glob.glob(os.path.join(hv.V, "corpus", "C18-*.json"))):
+        for cc in json.load(open(path)).get("cases", []):
+            add("corpus", **cc)
     # A. every weight vector with n <= 4, w <= 6: two full cycles without failures (wrr, nginx),
     #    a short mixed history for the random policies
     for n in range(1, 5):
@@ -128,6 +134,64 @@ def gen_cases(ctx):
             kw["n"] = n
         pw = rng.choice([(1, 0, 0), (2, 1, 1), (1, 2, 2), (1, 1, 0)])
         add("random", lb=lb, script=random_script(rng, length, rng.choice([1, 1, 3, 6]), pw), **kw)
+    # H. the client's URL list changes between calls: shrinks, grows, is reordered
+    def cfg(ids):
+        return "C" + ",".join(str(i) for i in ids)
+
+    def seq_from(k0, outs):
+        return " ".join("S F%d%s" % (k0 + k, o) for k, o in enumerate(outs))
+
+    for n1 in range(1, 6):
+        for k1 in range(0, n1 + 2):
+            for n2 in range(1, 6):
+                if n2 == n1:
+                    continue
+                k2 = 2 * n2 + 2
+                for lb in ("rr", "rand", "la"):
+                    add("reconfig", lb=lb, n=n1, script=" ".join(
+                        x for x in [seq_from(0, "O" * k1), cfg(range(n2)), seq_from(k1, ("OEP" * k2)[:k2])] if x))
+    for lb in WEIGHTED:
+        add("reconfig", lb=lb, weights=[2, 1, 3], script=" ".join(
+            [seq_from(0, "OOE"), cfg([0]), seq_from(3, "OPO"), cfg([2, 1, 0, 3, 4]), seq_from(6, "OOOOOO")]))
+    # ... also while calls are in flight (least-active keeps counting them), and reorderings
+    for _ in range(120 if quick else 1200):
+        lb = rng.choice(["la", "la", "rr", "rand"])
+        n = rng.randint(1, 5)
+        toks, inflight, started = [], [], 0
+        for _ in range(rng.randint(8, 40)):
+            x = rng.random()
+            if x < 0.15:
+                m = rng.randint(1, 6)
+                ids = list(range(m))
+                if rng.random() < 0.3:
+                    rng.shuffle(ids)
+                toks.append(cfg(ids))
+            elif inflight and (len(inflight) >= 4 or x < 0.55):
+                k = inflight.pop(rng.randrange(len(inflight)))
+                toks.append("F%d%s" % (k, rng.choice("OEP")))
+            else:
+                toks.append("S")
+                inflight.append(started)
+                started += 1
+        add("reconfig", lb=lb, n=n, script=" ".join(toks))
+    # I. a burst of concurrent callers (direct Handler calls, all at once), then a sequential probe
+    #    that must be fair again and must match the model started from the state the balancer rests in
+    for lb in ALL:
+        for rep in range(3 if quick else 10):
+            if lb in WEIGHTED:
+                kw = {"weights": [rng.randint(1, 4) for _ in range(rng.randint(2, 3))]}
+                nn, period = len(kw["weights"]), sum(kw["weights"])
+            else:
+                nn = rng.choice([2, 3])
+                kw = {"n": nn}
+                period = nn
+            heavy = lb == "wla"   # prints every URL
+            add("burst", lb=lb, mode="burst", g=16 if quick else 32, m=(1500 if heavy else 12000),
+                outs="O" if rep == 0 else rng.choice(["O", "OEP", "OOOE"]),
+                script=seq_from(0, "O" * (2 * period + 2)), **kw)
+    for rep in range(6 if quick else 20):   # the round-robin cursor under the heaviest contention
+        add("burst", lb="rr", mode="burst", n=rng.choice([2, 3]), g=32, m=20000, outs="O",
+            script=seq_from(0, "O" * 8))
     # G. concurrent callers (validity / no crash / counters back to zero)
     for lb in ALL:
         for rep in range(2 if quick else 6):
@@ -139,30 +203,38 @@ def gen_cases(ctx):
 
 
 # --------------------------------------------------------------------------- model side
-def model_line(case, obs):
-    """the model is fed the weights in the balancer's own order and the implementation's choices"""
+def model_tokens(case, obs):
+    """(header tokens, event tokens): the model is fed the weights in the balancer's own order, the
+    state the balancer rested in after a burst (if any), the configuration changes and the
+    implementation's choices"""
     lb = case["lb"]
     if lb in WEIGHTED:
         ws = obs.get("order") if obs.get("ctor") == "ok" and obs.get("order") is not None else case["weights"]
         head = [lb, str(len(ws)), str(len(ws))] + [str(w) for w in ws]
     else:
         head = [lb, str(case["n"]), "0"]
+    if case.get("mode") == "burst" and obs.get("rest_st") is not None:
+        head.append("@" + ",".join(str(x) for x in obs["rest_st"]))
     evs = []
-    toks = case["script"].split()
+    toks = case.get("script", "").split()
     events = obs.get("events") or []
     for j, tok in enumerate(toks):
+        if j >= len(events):
+            break
         if tok == "S":
-            if j < len(events):
-                u = events[j]["u"]
-                evs.append("S%d" % (u if u >= 0 else 0))
-                if "early" in events[j]:
-                    break
-            else:
+            u = events[j]["u"]
+            evs.append("S%d" % (u if u >= 0 else 0))
+            if "early" in events[j]:
                 break
+        elif tok[0] == "C":
+            evs.append("C%d" % events[j]["k"])
         else:
-            if j >= len(events):
-                break
             evs.append(tok)
+    return head, evs
+
+
+def model_line(case, obs):
+    head, evs = model_tokens(case, obs)
     return " ".join(head + evs)
 
 
@@ -248,14 +320,13 @@ def exact_pass(ctx, agreeing):
     for ci, (c, o, mo) in enumerate(agreeing):
         if c["lb"] in ("rr", "wrr") or o["ctor"] != "ok":
             continue
-        head = model_line(c, o).split()
-        nhead = 3 + int(head[2])
+        head, toks = model_tokens(c, o)
         evs = []
-        for j, tok in enumerate(head[nhead:]):
+        for j, tok in enumerate(toks):
             evs.append("R%d" % value.get((ci, j), 0) if tok.startswith("S") else tok)
         if any("early" in e for e in o["events"]):
             continue
-        lines.append(" ".join(["x:" + head[0]] + head[1:nhead] + evs))
+        lines.append(" ".join(["x:" + head[0]] + head[1:] + evs))
         idx.append(ci)
     outs = hv.run_model("c18", lines)
     bad = []
@@ -300,26 +371,36 @@ def windows_ok(picks, period, want):
     return None
 
 
+def burst_oracle(case, obs, n):
+    lb = case["lb"]
+    if obs.get("invalid"):
+        return "concurrent callers: %d calls were sent to a URL that is not configured" % obs["invalid"]
+    if obs.get("crashes"):
+        return "concurrent callers: unexpected failure %s" % obs["crashes"][0]
+    if sum(obs.get("per_server") or []) != obs.get("calls"):
+        return "concurrent callers: %d calls made, %d reached a configured server" % (
+            obs.get("calls"), sum(obs.get("per_server") or []))
+    st = obs.get("final_st") if case.get("mode") == "conc" else obs.get("rest_st")
+    act, eff = split_state(lb, st or [], n)
+    if act is not None and any(a != 0 for a in act):
+        return "concurrent callers: in-flight counters %s after all calls finished" % act
+    if eff is not None and any(not (0 <= e <= w) for e, w in zip(eff, obs["order"])):
+        return "concurrent callers: effective weights %s outside [0, weight] %s" % (eff, obs["order"])
+    return None
+
+
 def property_oracle(case, obs):
-    """C18 as written, evaluated on what the implementation did (no model involved)."""
+    """C18 as written, evaluated on what the implementation did (no model involved).  Servers are
+    identified with their position in the list in force when the call was made."""
     lb = case["lb"]
     if obs.get("fatal"):
         return "hang: " + obs["fatal"]
-    if case.get("mode") == "conc":
-        n = len(obs.get("order") or []) if lb in WEIGHTED else case["n"]
-        if obs.get("invalid"):
-            return "concurrent callers: %d calls were sent to a URL that is not configured" % obs["invalid"]
-        if obs.get("crashes"):
-            return "concurrent callers: unexpected failure %s" % obs["crashes"][0]
-        if sum(obs.get("per_server") or []) != obs.get("calls"):
-            return "concurrent callers: %d calls made, %d reached a configured server" % (
-                obs.get("calls"), sum(obs.get("per_server") or []))
-        act, eff = split_state(lb, obs.get("final_st") or [], n)
-        if act is not None and any(a != 0 for a in act):
-            return "concurrent callers: in-flight counters %s after all calls finished" % act
-        if eff is not None and any(not (0 <= e <= w) for e, w in zip(eff, obs["order"])):
-            return "concurrent callers: effective weights %s outside [0, weight] %s" % (eff, obs["order"])
-        return None
+    mode = case.get("mode")
+    if mode in ("conc", "burst"):
+        n0 = len(obs.get("order") or []) if lb in WEIGHTED else case["n"]
+        why = burst_oracle(case, obs, n0)
+        if why or mode == "conc":
+            return why
     if lb in WEIGHTED:
         bad = [w for w in case["weights"] if w <= 0]
         if obs["ctor"] != "ok":
@@ -327,44 +408,63 @@ def property_oracle(case, obs):
     ws = servers_of(case, obs)
     n = len(ws)
     events = obs.get("events") or []
+    toks = case.get("script", "").split()
     if n == 0:
         return None  # no server configured: nothing can be selected
     if lb in WEIGHTED and any(w <= 0 for w in ws):
         return None  # not a configuration the property speaks about
-    picks = []
+    segments = [[]]          # picks between configuration changes
     server_of_call = {}
-    inflight = [0] * n
-    failed_before = None  # number of picks made before the first failing call was settled
+    inflight = [0] * n       # per slot; never shrinks
+    failed_before = None     # number of picks made before the first failing call was settled
     prev_eff = None
+    if lb in FAILURE_AWARE:
+        prev_eff = list(ws)
+        if mode == "burst":
+            _, e0 = split_state(lb, obs.get("rest_st") or [], n)
+            prev_eff = list(e0) if e0 is not None else None
+            if any(c != "O" for c in case.get("outs", "O")):
+                failed_before = 0
     for j, e in enumerate(events):
-        act, eff = split_state(lb, e["st"], n)
+        if e["ev"] == "C":
+            if lb not in WEIGHTED:
+                n = e["k"]
+                ws = [1] * n
+                if n == 0:
+                    return None
+                inflight += [0] * (n - len(inflight))
+                segments.append([])
+            continue
+        act, eff = split_state(lb, e["st"], len(ws) if lb in WEIGHTED else len(e["st"]))
         if e["ev"] == "S":
             if "early" in e:
                 return "call %d selected no server: %s" % (e["k"], e.get("msg"))
             u = e["u"]
             if not (0 <= u < n):
                 return "call %d was sent to something that is not one of the %d configured servers (index %d)" % (e["k"], n, u)
-            if lb in ("la", "wla") and inflight[u] != min(inflight):
+            if lb in ("la", "wla") and inflight[u] != min(inflight[:n]):
                 return "call %d went to server %d with %d calls in flight while another server had %d" % (
-                    e["k"], u, inflight[u], min(inflight))
+                    e["k"], u, inflight[u], min(inflight[:n]))
             if lb in ("wrand", "wla") and prev_eff is not None:
                 cands = [i for i in range(n) if inflight[i] == min(inflight)] if lb == "wla" else list(range(n))
                 if sum(prev_eff[i] for i in cands) > 0 and prev_eff[u] == 0 and len(cands) > 1:
                     return "call %d went to server %d whose effective weight is 0 while others have a positive one %s" % (
                         e["k"], u, prev_eff)
-            picks.append(u)
+            segments[-1].append(u)
             server_of_call[e["k"]] = u
             inflight[u] += 1
         else:
+            if e.get("r") == "-":
+                continue
             u = server_of_call.get(e["k"])
             if u is None:
                 return "finish of unknown call %d" % e["k"]
             inflight[u] -= 1
-            o = case["script"].split()[j][-1]
+            o = toks[j][-1]
             if e.get("r") != o:
                 return "call %d: downstream outcome %s reported as %s (%s)" % (e["k"], o, e.get("r"), e.get("msg"))
             if o != "O" and failed_before is None:
-                failed_before = len(picks)
+                failed_before = sum(len(x) for x in segments)
             if eff is not None and prev_eff is not None and len(eff) == n:
                 for i in range(n):
                     d = eff[i] - prev_eff[i]
@@ -377,25 +477,28 @@ def property_oracle(case, obs):
                 if eff[u] != want:
                     return "call %d (%s) on server %d: effective weight %d -> %d, expected %d (weight %d)" % (
                         e["k"], "success" if o == "O" else "failure", u, prev_eff[u], eff[u], want, ws[u])
-        if act is not None and len(act) >= n and list(act[:n]) != inflight:
-            return "after event %d the in-flight counters are %s but %s calls are in flight" % (j, list(act[:n]), inflight)
+        if act is not None:
+            m = max(len(act), len(inflight))
+            if list(act) + [0] * (m - len(act)) != inflight + [0] * (m - len(inflight)):
+                return "after event %d the in-flight counters are %s but %s calls are in flight" % (j, list(act), inflight)
         if eff is not None:
             if len(eff) != n or any(not (0 <= x <= w) for x, w in zip(eff, ws)):
                 return "after event %d effective weights %s are not within [0, weight] %s" % (j, eff, ws)
             prev_eff = list(eff)
         elif lb in FAILURE_AWARE:
             prev_eff = None
-    if lb in FAILURE_AWARE and events and prev_eff is None:
+    if lb in FAILURE_AWARE and any(e["ev"] != "C" for e in events) and prev_eff is None:
         return "effective weights not observable"
-    if all(v == 0 for v in inflight):
-        act, _ = split_state(lb, events[-1]["st"], n) if events else (None, None)
-        if act is not None and any(a != 0 for a in act):
-            return "all calls finished but in-flight counters are %s" % act
-    # full cycles
+    # full cycles; after a change of the list fairness must have resumed after one call
+    picks = [u for seg in segments for u in seg]
     if lb == "rr":
-        why = windows_ok(picks, n, [1] * n)
-        if why:
-            return "round robin: " + why
+        sizes = [case["n"]] + [e["k"] for e in events if e["ev"] == "C"]
+        for si, seg in enumerate(segments):
+            nn = sizes[si]
+            part = seg if si == 0 else seg[1:]
+            why = windows_ok(part, nn, [1] * nn)
+            if why:
+                return "round robin%s: %s" % (" (after the list changed; first call skipped)" if si > 0 else "", why)
     if lb == "wrr":
         g = gcd_all(ws)
         why = windows_ok(picks, sum(ws) // g, [w // g for w in ws])
@@ -522,6 +625,8 @@ def run(ctx):
     for c in cases:
         o = byid[c["id"]]
         why = property_oracle(c, o)
+        if c.get("mode") == "burst":
+            ctx.bump("concurrent_calls", None, o.get("calls", 0))
         if c.get("mode") == "conc":
             ctx.count_case("conc|%s|%s|%s|%s" % (c["lb"], c.get("weights", c.get("n")), c["g"], c["outs"]), nontrivial=True)
             ctx.bump("concurrent_calls", None, o.get("calls", 0))
